@@ -10,7 +10,6 @@ import (
 	"encoding/json"
 	"fmt"
 	"os"
-	"regexp"
 	"strings"
 	"sync"
 	"time"
@@ -43,6 +42,15 @@ type c18Logger struct {
 	btclog.Logger
 	mu    sync.Mutex
 	lines []string
+	durs  []time.Duration
+}
+
+func (l *c18Logger) drainDurs() []time.Duration {
+	l.mu.Lock()
+	defer l.mu.Unlock()
+	r := l.durs
+	l.durs = nil
+	return r
 }
 
 func (l *c18Logger) add(format string, a ...any) {
@@ -54,7 +62,19 @@ func (l *c18Logger) add(format string, a ...any) {
 	l.mu.Unlock()
 }
 func (l *c18Logger) Tracef(string, ...any)         {}
-func (l *c18Logger) Debugf(f string, a ...any)     { l.add(f, a...) }
+func (l *c18Logger) Debugf(f string, a ...any) {
+	// the retry loop reports the backoff it will wait next as the first
+	// argument of a debug line; keyed on level and argument type, not on
+	// the wording
+	if len(a) > 0 {
+		if d, ok := a[0].(time.Duration); ok {
+			l.mu.Lock()
+			l.durs = append(l.durs, d)
+			l.mu.Unlock()
+		}
+	}
+	l.add(f, a...)
+}
 func (l *c18Logger) Infof(f string, a ...any)      { l.add(f, a...) }
 func (l *c18Logger) Warnf(f string, a ...any)      { l.add(f, a...) }
 func (l *c18Logger) Errorf(f string, a ...any) {
@@ -100,27 +120,7 @@ func (s *c18FailSink) drain() []string {
 
 var c18FailSinks sync.Map // account key bytes -> *c18FailSink
 
-var (
-	c18Log       = &c18Logger{Logger: btclog.Disabled}
-	c18BackoffRe = regexp.MustCompile(`backing off for (\S+): `)
-)
-
-// c18Backoffs extracts the durations of the "backing off for %s" lines.
-func c18Backoffs(lines []string) []time.Duration {
-	var res []time.Duration
-	for _, l := range lines {
-		m := c18BackoffRe.FindStringSubmatch(l)
-		if m == nil {
-			continue
-		}
-		d, err := time.ParseDuration(m[1])
-		if err != nil {
-			panic("unparseable backoff in log: " + l)
-		}
-		res = append(res, d)
-	}
-	return res
-}
+var c18Log = &c18Logger{Logger: btclog.Disabled}
 
 // c18Acct is a test account with a real key pair.
 type c18Acct struct {
@@ -356,8 +356,9 @@ func c18Handshake(r *Run, acct *c18Acct, challengeField []byte, ver uint32) {
 // `fails` times and compares the logged backoffs with the model.
 func c18Backoff(r *Run, initB, minB, maxB time.Duration, retries, fails int) {
 	c18Log.drain()
+	c18Log.drainDurs()
 	err, opened, at := auctioneer.VerifC18Connect(initB, minB, maxB, retries, fails)
-	backoffs := c18Backoffs(c18Log.drain())
+	backoffs := c18Log.drainDurs()
 	// waits the code must have requested: the initial one and every
 	// updated backoff that was followed by another attempt
 	var waits []time.Duration
